@@ -100,6 +100,28 @@ class Harness:
         full = f"{self.udesc['prop']}.{self.udesc['name']}.{name}"
         self.ctx.oblige(full, goal, kind="ensures", replay=replay, **meta)
 
+    def ensures_generalised(self, name, goal, abstract, **meta):
+        """prove a generalisation of `goal`: the listed (e.g. nonlinear) subterms are replaced by fresh
+        variables in the goal and in the path condition -- sound (a more general statement is proved)."""
+        from .values import fresh_name
+
+        subs = []
+        for t in abstract:
+            t = t.t if isinstance(t, V) else t
+            subs.append((t, z3.Const(fresh_name("gen"), t.sort())))
+        g = z3.substitute(goal.t if isinstance(goal, V) else goal, *subs)
+        full = f"{self.udesc['prop']}.{self.udesc['name']}.{name}"
+        from .interp import Obligation
+
+        self.ctx.obligations.append(Obligation(full, [z3.substitute(f, *subs) for f in self.ctx.pc], g, dict(kind="ensures", **meta)))
+
+    def lemma(self, name, goal, assumptions=()):
+        """a standalone (context-free) lemma: proved from `assumptions` only, not from the path condition"""
+        from .interp import Obligation
+
+        full = f"{self.udesc['prop']}.{self.udesc['name']}.{name}"
+        self.ctx.obligations.append(Obligation(full, [a.t if isinstance(a, V) else a for a in assumptions], goal.t if isinstance(goal, V) else goal, dict(kind="lemma")))
+
     def fail(self, name, why, replay=None):
         """an obligation that is violated whenever this program point is reachable"""
         full = f"{self.udesc['prop']}.{self.udesc['name']}.{name}"
@@ -259,6 +281,12 @@ def run_unit(udesc, tier="quick", timeout_ms=None, known=None):
         out["wall_s"] = round(time.time() - t0, 3)
         return out
     out["paths"] = len(results)
+    escaped = [pr for pr in results if pr.kind == "raise"]
+    if escaped:
+        out["status"] = "crash"
+        out["reason"] = f"an interpreted exception escaped the harness: {escaped[0].value!r}"
+        out["wall_s"] = round(time.time() - t0, 3)
+        return out
     out["srcs"] = udesc.get("_srcs", {})
     out["notes"] = {k: sorted(v) if isinstance(v, set) else list(v)[:50] for k, v in ex.notes.items()}
     from . import frames as _fr, theory_ext as _te
